@@ -78,7 +78,7 @@ pub struct Agg {
 }
 
 impl Agg {
-    fn absorb(&mut self, trace: &Trace, st: &RunStats, run: u64) {
+    pub fn absorb(&mut self, trace: &Trace, st: &RunStats, run: u64) {
         self.runs += 1;
         self.ops += st.ops;
         self.mutations_ok += st.mutations_ok;
@@ -513,7 +513,15 @@ pub struct CheckReport {
     pub extra: BTreeMap<String, serde_json::Value>,
 }
 
+pub fn local_absorb(a: &mut Agg, t: &Trace, st: &RunStats, run: u64) {
+    a.absorb(t, st, run);
+}
+
 pub fn write_evidence(r: &CheckReport) {
+    write_evidence_with_distinct(r, r.agg.fingerprints.len() as u64)
+}
+
+pub fn write_evidence_with_distinct(r: &CheckReport, distinct: u64) {
     use serde_json::json;
     let a = &r.agg;
     let faults = json!({
@@ -532,7 +540,7 @@ pub fn write_evidence(r: &CheckReport) {
     let probes: BTreeMap<String, u64> = a.probes.iter().map(|(k, v)| (k.to_string(), *v)).collect();
     let mut coverage = json!({
         "evaluations": a.runs,
-        "distinct_nontrivial": a.fingerprints.len(),
+        "distinct_nontrivial": distinct,
         "nontrivial_runs": a.nontrivial,
         "rule": r.rule,
         "samples": a.samples,
